@@ -10,22 +10,15 @@ fn usage() -> ! {
 
 const PROFILE: &str = if cfg!(debug_assertions) { "checked" } else { "wrapping" };
 
-fn run_check(ctx: &Ctx) -> props::c01_04::Report {
-    match ctx.id.as_str() {
-        "C01" | "C02" | "C03" | "C04" => props::c01_04::run(ctx),
-        _ => {
-            eprintln!("unknown property {}", ctx.id);
-            std::process::exit(2)
-        }
-    }
+fn run_check(ctx: &Ctx) -> runner::Report {
+    props::run(ctx).unwrap_or_else(|| {
+        eprintln!("unknown property {}", ctx.id);
+        std::process::exit(2)
+    })
 }
 
 fn replay(id: &str, engine: &str, case: &Value) -> Result<(), String> {
-    let _ = engine;
-    match id {
-        "C01" | "C02" | "C03" | "C04" => props::c01_04::replay(id, case),
-        _ => Err(format!("unknown property {}", id)),
-    }
+    props::replay(id, engine, case)
 }
 
 fn main() {
@@ -83,7 +76,44 @@ fn main() {
     let ctx = Ctx { id: id.clone(), tier, seed: seed.wrapping_mul(2).wrapping_add((PROFILE == "wrapping") as u64), profile: PROFILE, threads, root };
     let ext_seed = seed;
     let t0 = Instant::now();
-    let rep = run_check(&ctx);
+    // committed regression inputs first
+    let cdir = format!("{}/corpus/{}", ctx.root, id);
+    let mut files: Vec<String> = std::fs::read_dir(&cdir)
+        .map(|d| d.filter_map(|e| e.ok()).map(|e| e.path().to_string_lossy().to_string()).filter(|p| p.ends_with(".json")).collect())
+        .unwrap_or_default();
+    files.sort();
+    let mut corpus_replayed = 0u64;
+    for path in files {
+        let text = std::fs::read_to_string(&path).expect("cannot read corpus file");
+        let v: Value = serde_json::from_str(&text).expect("corpus file is not JSON");
+        let engine = v["engine"].as_str().unwrap_or("").to_string();
+        let case = v["case"].clone();
+        let idc = id.clone();
+        let res = std::thread::Builder::new()
+            .stack_size(1 << 30)
+            .spawn(move || replay(&idc, &engine, &case))
+            .unwrap()
+            .join()
+            .unwrap();
+        corpus_replayed += 1;
+        if let Err(m) = res {
+            let mut st = runner::Stats::default();
+            st.evals = corpus_replayed;
+            let info = runner::PartInfo {
+                level: "exploration",
+                rule: "a committed regression input (corpus) failed before generation started",
+                assumptions: vec![],
+                exhaustive: false,
+                extra: serde_json::json!({}),
+            };
+            runner::write_part(&ctx, ext_seed, &st, &info, t0.elapsed().as_secs_f64(), 1);
+            println!("{}", m);
+            println!("VIOLATION property={} replay={}", id, path);
+            std::process::exit(1);
+        }
+    }
+    let mut rep = run_check(&ctx);
+    rep.stats.class_n("corpus_files_replayed", corpus_replayed);
     let wall = t0.elapsed().as_secs_f64();
     let viol = rep.failure.is_some() as u64;
     runner::write_part(&ctx, ext_seed, &rep.stats, &rep.info, wall, viol);
